@@ -9,7 +9,10 @@ areas, round trips and symmetry evaluated on the implementation's own outputs).
 Input discipline: transforms whose float arithmetic is exact (resolutions +-2^k, Pythagorean cell sizes,
 dyadic origins, small integers) are compared exactly as rationals; geographic values (trigonometry) within
 1e-12 relative; 'realistic' non-dyadic transforms (1/120 degree ...) only get the implementation-level
-spec checks (round trip, centres in bounds, symmetry)."""
+spec checks (round trip, centres in bounds, symmetry). Geographic grids that end at a pole with non-dyadic row
+heights (180/N degree: 0.1, 0.05, 0.9, 1/60 ...; global and polar caps, many rows, few columns) cannot be handed
+to the Lean driver exactly: their areas are judged ('spec') against an own oracle - row edges as exact rationals of
+the float transform, sines in 160-bit fixed point - with an absolute tolerance on the sine difference."""
 import math
 import warnings
 from fractions import Fraction as Fr
@@ -28,7 +31,9 @@ OPS = ["idxs_to_coords/FlwdirRaster.xy", "coords_to_idxs/FlwdirRaster.index", "r
 RULE = ("axis-aligned transforms with resolutions of either sign: +-2^k (exact class, points also exactly on cell "
         "edges and raster corners), Pythagorean cell sizes (3,4),(0.75,1),(5,12).., equal sizes, rotated/sheared and "
         "degenerate integer transforms, geographic dyadic-degree grids in both hemispheres / across the equator / global, "
-        "non-dyadic 'realistic' resolutions; shapes incl. 1xN, Nx1; all 8 neighbours + far pairs; units m2/ha/km2/cell/"
+        "global grids and polar caps with non-dyadic row heights 180/N (N = 7..4000 log-uniform, 0.9/0.3/0.2/0.1/0.05/"
+        "1/12/1/60/1/120 degree; up to 21600 rows x 1..8 columns, north-up and south-up, pole at the origin or at the far "
+        "edge), non-dyadic 'realistic' resolutions; shapes incl. 1xN, Nx1; all 8 neighbours + far pairs; units m2/ha/km2/cell/"
         "unknown. non-trivial = >= 2 cells and |xres| != |yres|; distinct = SHA-1 of (op, transform, shape, inputs)")
 
 EXC = {1: "IndexError", 2: "ValueError", 3: "other:TransformNotInvertibleError"}
@@ -745,6 +750,135 @@ def case_area(ctx, rng, T, cls, latlon, shape, nontriv, glob=False):
     ctx.add(desc, [("c17_area", req)], judge, nontrivial=nontriv)
 
 
+# ---------------------------------------------------------------------------------------------------
+# geographic grids that end at a pole, non-dyadic row heights (own oracle, no Lean driver op: the row edges are
+# not dyadic, so neither the exact-key sine table of c17_area nor `exact()` applies)
+# ---------------------------------------------------------------------------------------------------
+FP = 160
+FP_ONE = 1 << FP
+
+
+def _fp_atan_inv(n):
+    x = FP_ONE // n
+    s, t, k, n2 = x, x, 1, n * n
+    while t:
+        t //= n2
+        k += 2
+        s += -(t // k) if (k // 2) % 2 else t // k
+    return s
+
+
+FP_PI = 4 * (4 * _fp_atan_inv(5) - _fp_atan_inv(239))  # Machin; ~2^-150 accurate
+
+
+def fp_sin_deg(q):
+    """sine of q degrees (Fraction, |q| <= ~100) as a fixed-point integer (FP fractional bits), Taylor series"""
+    x = (FP_PI * q.numerator) // (180 * q.denominator)
+    x2 = (x * x) >> FP
+    s = t = x
+    k = 1
+    while t:
+        t = -((t * x2) >> FP) // ((k + 1) * (k + 2))
+        k += 2
+        s += t
+    return s
+
+
+R_EARTH2 = 6371000 ** 2
+POLAR_N = [200, 600, 900, 1800, 3600, 2160, 360, 720, 1080, 1440, 2000, 2700, 3000, 4320, 5400, 7200]
+POLAR_N_BIG = [10800, 21600, 180 * 24, 180 * 100]  # 1/60, 1/120 (, 1/24, 0.01) degree rows
+
+
+def gen_polar(rng):
+    """geographic grid with row height 180/N degree (binary64 quotient: 180/1800 is the literal 0.1 ...) whose
+    first or last row ends at a pole: global (N rows) or a polar cap (few rows); returns (T, shape, kind)"""
+    u = rng.random()
+    if u < 0.55:
+        N = int(round(math.exp(rng.uniform(math.log(7), math.log(4000)))))
+    elif u < 0.93:
+        N = rng.choice(POLAR_N)
+    else:
+        N = rng.choice(POLAR_N_BIG)
+    yres = 180 / N
+    northup = rng.random() < 0.6
+    if rng.random() < 0.6:
+        kind = "global"
+        nrow = N
+        ncol = rng.choice([1, 2, 3, 4, 5, 6, 7, 8]) if N <= 4000 else rng.choice([1, 2])
+        xres, west = 360 / ncol, -180.0
+        orig = 90.0 if northup else -90.0
+    else:
+        nrow = rng.randint(1, min(N // 2, 40))
+        ncol = rng.choice([1, 2, 3, 5, 8])
+        xres = rng.choice([yres, 0.1, 0.25, 1.0, 2.5, 360 / ncol])
+        west = rng.choice([-180.0, 0.0, float(rng.randint(-180, 170)), 180 - xres * ncol])
+        pole = rng.choice([90.0, -90.0])
+        if (pole > 0) == northup:
+            kind = "cap:pole-at-origin"
+            orig = pole
+        else:  # the pole is the far edge: origin computed the way a user would, pole -/+ nrow * yres
+            kind = "cap:pole-at-far-edge"
+            orig = pole - nrow * yres if pole > 0 else pole + nrow * yres
+    T = Affine(xres, 0.0, west, 0.0, -yres if northup else yres, orig)
+    return T, (nrow, ncol), kind
+
+
+def case_area_polar(ctx, rng):
+    from pyflwdir import gis_utils as gis
+    T, shape, kind = gen_polar(rng)
+    nrow, ncol = shape
+    unit = rng.choice(["m2", "m2", "ha", "km2"])
+    fac = {"m2": 1, "ha": 10 ** 4, "km2": 10 ** 6}[unit]
+    via = "gis"
+    if 2 <= nrow * ncol <= 6000 and rng.random() < 0.4:  # (a FlwdirRaster has at least two cells)
+        via, unit, fac = "flw", "m2", 1
+        flw = flw_of(shape, T, True)
+        if rng.random() < 0.3:
+            call(lambda: flw.upstream_area(rng.choice(["km2", "ha", "m2"])))
+        err, val = call(lambda: flw.area)
+    else:
+        err, val = call(gis.area_grid, T, shape, True, unit)
+    northup = T[4] < 0
+    ctx.count("area-polar:" + kind.split(":")[0] + (":north-up" if northup else ":south-up") + ":" + via)
+    ctx.count("area-polar:rows>=1000" if nrow >= 1000 else "area-polar:rows<1000")
+    desc = {"op": "area_grid" if via == "gis" else "FlwdirRaster.area", "transform": tdesc(T), "shape": list(shape),
+            "latlon": True, "unit": unit, "grid": kind + " (row height 180/%d degree)" % round(180 / abs(T[4]))}
+    fs = []
+    if err is not None:
+        fs.append({"kind": "spec", "what": f"cell areas of a geographic grid that ends at the pole: raises {err}"})
+    else:
+        arr = np.asarray(val)
+        if arr.shape != (nrow, ncol):
+            fs.append({"kind": "spec", "what": "area grid has not the raster shape"})
+        elif not bool(np.all(np.isfinite(arr.astype(np.float64)))):
+            fs.append({"kind": "spec", "what": "area grid contains NaN/inf"})
+        else:
+            if not bool(np.all(arr == arr[:, :1])):
+                fs.append({"kind": "spec", "what": "cell area varies within a row"})
+            # oracle: edges of row j are f + j*e and f + (j+1)*e (exact rationals of the float transform)
+            a, e, f = abs(fr(T[0])), fr(T[4]), fr(T[5])
+            sines = [fp_sin_deg(f + j * e) for j in range(nrow + 1)]
+            # area = R^2 * radians(|xres|) * band / fac  <=>  band = area * fac * 180 / (R^2 * |xres| * pi)
+            knum = fac * 180 * FP_ONE * FP_ONE * a.denominator
+            kden = R_EARTH2 * a.numerator * FP_PI
+            tol0 = 2 * FP_ONE // 10 ** 15     # absolute, on the difference of two binary64 sines of edge latitudes
+            for j in range(nrow):
+                want = abs(sines[j + 1] - sines[j])
+                g = fr(arr[j, 0])
+                got = (g.numerator * knum) // (g.denominator * kden)
+                if abs(got - want) > tol0 + want // 10 ** 12:
+                    fs.append({"kind": "spec", "what": f"row {j}: cell area {float(arr[j, 0])!r} {unit} is not the spherical "
+                               f"cell area between the row's edge latitudes {float(f + j * e)!r} and {float(f + (j + 1) * e)!r}: "
+                               f"expected {float(Fr(want * kden, knum))!r}"})
+                    break
+            if kind == "global":
+                total = math.fsum(float(v) for v in arr.ravel())
+                sphere = 4 * math.pi * 6371e3 ** 2 / fac
+                if abs(total - sphere) > 1e-11 * sphere:
+                    fs.append({"kind": "spec", "what": f"areas of a global grid add up to {total!r}, sphere is {sphere!r}"})
+    ctx.add(desc, [], lambda ans: fs, nontrivial=True)
+
+
 def case_real(ctx, rng, T, shape):
     """non-dyadic transform: implementation-level spec checks only (no exact model comparison possible)"""
     from pyflwdir import gis_utils as gis
@@ -899,5 +1033,7 @@ def run(ctx):
             Tg, shg = gen_global(rng)
             case_area(ctx, rng, Tg, "geo", True, shg, Tg[0] != abs(Tg[4]), glob=True)
             case_distance(ctx, rng, Tg, "geo", True, shg, Tg[0] != abs(Tg[4]))
+        if k % 2 == 0:
+            case_area_polar(ctx, rng)
         if len(ctx.cases) > 400:
             ctx.flush()
